@@ -166,6 +166,8 @@ impl EvmStub {
                                     let mut g = st.lock().expect("stub lock");
                                     g.calls += 1;
                                     match decode_verify_calldata(&bytes) { Some(t) => g.received.push(t), None => g.undecodable += 1 }
+                                    // drivers that never look at the calldata: keep only the latest calls
+                                    if g.received.len() > 256 { g.received.drain(..128); }
                                     let valid = g.valid;
                                     let mut out = String::from("0x");
                                     for slot in 0..3 {
